@@ -1,5 +1,6 @@
 PROP = dict(
         coq="Properties/C05.v",
+        tie_coq=["Properties/TieC05.v"],
         workloads=[
             dict(name="amm-random", go_test="TestC05", runner="C05",
                  env=dict(quick=dict(VERIF_CASES=4000), thorough=dict(VERIF_CASES=40000))),
